@@ -295,7 +295,9 @@ fn exec_supply_inner(check: &str, t: &SupplyTrace, scratch: &Scratch, rec: &mut 
     for e in &o.events {
         // (on the long-lived thread the ORDER in which delegated levels, and so their inspections, are gone
         // through depends on the thread's history even when all of them pass: the events count as a set there)
-        let mut e: Vec<&String> = e.iter().collect();
+        // (what link files a command saw when it started depends on which inspections ran before it — on the
+        // order, that is: an observation for the oracle, not part of the log)
+        let mut e: Vec<&String> = e.iter().filter(|l| !l.starts_with("saw ")).collect();
         if t.same_thread {
             e.sort();
         }
